@@ -109,7 +109,7 @@ pub fn run(ctx: &Ctx) -> (Outcome, String, Option<bool>) {
         p.max_steps = 40;
         p.max_txs = 12;
     }
-    let out = super::hist::run_histories(ctx, "liquidity-histories", p, ctx.scale(200, 3000), C16::default);
+    let out = super::hist::run_histories(ctx, "liquidity-histories", p, ctx.scale(900, 9000), C16::default);
     let rule = "Generated histories of up to 24 (quick) / 40 (thorough) steps rich in deposits (24%) and withdrawals (22%, always of everything a coin holds) plus swaps, new tokens and new pools, on every genesis class. Oracle after every seal, on the real state: MEL/SYM and MEL/ERG (and ERG/SYM once TIP-902) exist with both reserves > 0; the pool tree has no entry under a key no transaction named; for every pool the sum of unspent coins in its liquidity-token denomination <= the pool's recorded liquidity. Non-trivial = history with >=1 deposit and >=1 withdrawal settled on the same pool; distinct by the sequence of pool roots.".to_string();
     (out, rule, None)
 }
